@@ -412,6 +412,16 @@ macro_rules! idm {
     };
 }
 
+/// An operand's jump into the caller's loop, taken exactly once per run (see gen/probe.py, loop_mode).
+pub fn jump_once() -> bool {
+    crate::log::once_per_run()
+}
+/// The macro evaluation completed in iteration `lp` of the caller's loop: after one taken `continue` that must be 1.
+pub fn loop_iteration(lp: u8) {
+    if lp != 1 {
+        panic!("an operand's `continue` did not reach the caller's loop: the macro completed in iteration {} instead of 1", lp);
+    }
+}
 /// Always true; keeps `if yes() { .. } else { .. }` operands from being folded away syntactically.
 pub fn yes() -> bool {
     true
